@@ -31,6 +31,9 @@ func initEncAndDecModes() {
 
 	decMode, err = cbor.DecOptions{
 		MaxArrayElements: 10485760, // Set to a reasonably high value, 10MiB
+		// Go strings are arbitrary bytes and the encoder writes them as they are: a text string
+		// that is not valid UTF-8 must decode back, or the record it sits in becomes unreadable.
+		UTF8: cbor.UTF8DecodeInvalid,
 	}.DecModeWithTags(ts)
 	if err != nil {
 		panic(err)
